@@ -40,9 +40,6 @@ func C17(run *ev.Run, tier string) map[string]interface{} {
 	thorough := tier == "thorough"
 	dl := deadline(tier)
 	newImpl := func() drv.Driver { return &drv.Product{A: drv.NewV1(), B: drv.NewV2()} }
-	newMulti := func() drv.Driver {
-		return &drv.Product{A: &drv.Multi{Cs: []drv.Driver{drv.NewV1(), drv.NewV1()}}, B: &drv.Multi{Cs: []drv.Driver{drv.NewV2(), drv.NewV2()}}}
-	}
 	check := func(op drv.Op, got, want drv.Resp) *drv.Diff { return got.PairDiff }
 	var systems []mc.Sys
 	mk := func(name string, ni func() drv.Driver, init []drv.Op, alpha func(m *model.Model) []drv.Op, obs func(m *model.Model) []drv.Op, maxStates int) {
@@ -90,14 +87,36 @@ func C17(run *ev.Run, tier string) map[string]interface{} {
 	{
 		u := Universe{Keys: map[string][]val.Item{"tba": {hKey("k1"), hKey("k2")}, "tbb": {hKey("k1"), hKey("k2")}}}
 		init := []drv.Op{{K: drv.KCreate, Table: "tba", Cfg: &hcfg}, {K: drv.KCreate, Table: "tbb", Cfg: &hcfg}}
-		mk("failure-toggles", newImpl, init, c15Alphabet(thorough, true), func(m *model.Model) []drv.Op { return ObserveOps(m, u) }, cap)
+		// plus requests that are invalid on their own (unused and undefined placeholders, syntax
+		// errors, malformed keys): which of the two errors wins must not depend on the client
+		a15 := c15Alphabet(thorough, true)
+		var invalid []drv.Op
+		for _, f := range c08Failing([]val.Item{hKey("k1"), hKey("k2")}, false, false) {
+			if k, ok := f.Key["h"]; ok && k.S == "k2" {
+				continue
+			}
+			if k, ok := f.Item["h"]; ok && k.S == "k2" {
+				continue
+			}
+			keep := false
+			for _, w := range []string{"unused", "undefined", "syntax error", "missing key", "wrong-typed key"} {
+				keep = keep || strings.Contains(f.Tag, w)
+			}
+			if keep && f.Table == "tab" && (f.K == drv.KPut || f.K == drv.KUpd || f.K == drv.KDel || f.K == drv.KGet || f.K == drv.KQuery || f.K == drv.KScan) {
+				f.Table = "tba"
+				f.Tag = "INVALID:" + strings.TrimPrefix(f.Tag, "FAIL:")
+				invalid = append(invalid, f)
+			}
+		}
+		mk("failure-toggles", newImpl, init, func(m *model.Model) []drv.Op { return append(a15(m), invalid...) }, func(m *model.Model) []drv.Op { return ObserveOps(m, u) }, cap)
 		slots := []c19slot{{"tba", hKey("k1")}, {"tba", hKey("k2")}, {"tbb", hKey("k1")}}
 		mk("batches", newImpl, init, c19Alphabet(slots, 2), func(m *model.Model) []drv.Op { return ObserveOps(m, u) }, cap)
 	}
 	// lifecycle (C18)
 	{
-		slots := []string{"tb1", "c2:tb1"}
-		mk("lifecycle", newMulti, nil, c18Alphabet(slots, 1, false), c18Observe(slots), cap)
+		// (one table slot: the two-client catalogue is C18's; here the two SDK clients are compared)
+		slots := []string{"tb1"}
+		mk("lifecycle", newImpl, nil, c18Alphabet(slots, 1, false), c18Observe(slots), cap)
 	}
 	// attribute values: every value tree of C10's alphabet written and read back through both clients
 	{
